@@ -356,6 +356,30 @@ theorem find_det_first_crossing (sqrtF : Rat → Rat) (a : Assertion) (m : Rat) 
       cases h2
       exact ⟨n, p, h, h1, h3, h4, h5⟩
 
+/-- for CARD_COMPARISON / ONEAUDIT the assumed population has length `N`, so no tiling happens: the
+estimate is the first crossing of the test's history on the assumed population itself -/
+theorem find_det_comparison (sqrtF : Rat → Rat) (a : Assertion) (m : Rat) (hm : a.margin = some m)
+    (hpos : 0 < m) (hat : a.auditType = .cardComparison ∨ a.auditType = .oneaudit)
+    (n : Nat) (hN : a.cfg.N = some n) (hn : 0 < n)
+    (pfx : Bool) (rate1 rate2 : Option Rat) (q : Rat) (k : Nat) :
+    assertionFindSampleSize sqrtF a none pfx rate1 rate2 none q = .ok k ↔
+      ∃ x p h, assumedPopulation a m rate1 rate2 = .ok x ∧
+        run sqrtF a.cfg a.test x = .ok (p, h) ∧ k = firstCrossing h a.riskLimit n := by
+  rw [find_det_first_crossing sqrtF a m hm hpos]
+  constructor
+  · rintro ⟨n', x, p, h, h1, h2, h3, h4, h5⟩
+    rw [hN] at h1; cases h1
+    obtain ⟨_, _, _, _, hl, _⟩ := assumed_population_comparison a m rate1 rate2 n hN hat x h2
+    rw [← hl, tileTo_self x h3] at h4
+    exact ⟨x, p, h, h2, h4, h5⟩
+  · rintro ⟨x, p, h, h2, h4, h5⟩
+    obtain ⟨_, _, _, _, hl, _⟩ := assumed_population_comparison a m rate1 rate2 n hN hat x h2
+    have h3 : x ≠ [] := by
+      intro hx; rw [hx] at hl; simp at hl; omega
+    refine ⟨n, x, p, h, hN, h2, h3, ?_, h5⟩
+    rw [← hl, tileTo_self x h3]
+    exact h4
+
 /-! ### 3. a prefix that already crosses the risk limit fixes every simulation-based estimate -/
 
 /-- if the first `m` entries of a history contain a first crossing at index `i`, the whole history has
@@ -438,6 +462,22 @@ theorem prefix_crossing (sqrtF : Rat → Rat) (cfg : Cfg) (test : Test) (x : Lis
   rw [mapM_const tails _ (i + 1) hall]
   show Except.ok (quantileInt (List.replicate tails.length (i + 1)) q) = Except.ok (i + 1)
   rw [quantileInt_const _ _ (List.length_pos_of_ne_nil hne) q hq]
+
+/-- the same at the level of `Assertion.find_sample_size` (this is what `Audit.find_sample_size` calls
+with `prefix=True` once MVRs are available): if the data already cross the contest's risk limit at
+position `i + 1`, every simulation-based estimate is `i + 1` -/
+theorem find_prefix_crossing (sqrtF : Rat → Rat) (a : Assertion) (m : Rat) (hm : a.margin = some m)
+    (hpos : 0 < m) (x : List Rat) (rate1 rate2 : Option Rat)
+    (n : Nat) (hN : a.cfg.N = some n) (hx : List XR) (tails : List (List Rat)) (hne : tails ≠ [])
+    (hcausal : ∀ y ∈ tails, ∃ p h, run sqrtF a.cfg a.test (x ++ y) = .ok (p, h) ∧ h.take x.length = hx)
+    (i : Nat) (hi : i < hx.length) (hp : XR.le hx[i] (.fin a.riskLimit) = true)
+    (hlt : ∀ j (hj : j < i), XR.le (hx[j]'(Nat.lt_trans hj hi)) (.fin a.riskLimit) = false)
+    (q : Rat) (hq : q ≤ 1) :
+    assertionFindSampleSize sqrtF a (some x) true rate1 rate2 (some tails) q = .ok (i + 1) := by
+  rw [find_eq sqrtF a m hm hpos]
+  show liftNM _ = _
+  rw [prefix_crossing sqrtF a.cfg a.test x a.riskLimit n hN hx tails hne hcausal i hi hp hlt q hq]
+  rfl
 
 /-- the per-population form: for EVERY tail the first crossing of `x ++ tail` is that of the prefix -/
 theorem prefix_crossing_tail (sqrtF : Rat → Rat) (cfg : Cfg) (test : Test) (x y : List Rat) (alpha : Rat)
